@@ -261,9 +261,8 @@ where
                     Ok(p)
                 }
                 XRef::Stream {stream_id, index} => {
-                    if !flags.contains(ParseFlags::STREAM) {
-                        return Err(PdfError::PrimitiveNotAllowed { found: ParseFlags::STREAM, allowed: flags });
-                    }
+                    // `flags` restrict the kind of the member (checked by `parse` below), not of its
+                    // container: a member of an object stream is never a stream itself
                     // use get to cache the object stream
                     let obj_stream = resolve.get::<ObjectStream>(Ref::from_id(stream_id))?;
 
